@@ -10,6 +10,7 @@ import CookModel.Num.ScaleM
 import CookModel.Lemmas.StdMetaLists
 import CookModel.Lemmas.ScaleOffset
 import CookModel.Lemmas.BuilderBridge
+import CookModel.Lemmas.FitIdem
 /-
   C08  Scaling multiplies exactly the scalable amounts and nothing else.
 
@@ -755,6 +756,51 @@ example : ∃ c, Bld.BuiltAs [Gen.shippedFile] c := by
 /-- the premises of `C08_scale_linear_offset` hold of `@oven{180%°C}` with the shipped (sound) converter -/
 example : (unitInfo (Converter.bundled Rat) ⟨.number (.regular 180), some ['°', 'C']⟩).map (·.difference)
     = some (5463/20) := by decide +kernel
+
+/-- the shipped converter is sound, its lists are not mixed across systems, its ratios are positive (decided on the
+    generated table; the same facts as `C09_bundled_sound`, `C09_bundled_systems_coherent`, `C09_bundled_best_lists_ok`,
+    restated here because Props/C08.lean does not import Props/C09.lean) -/
+theorem C08_bundled_sound : (Converter.bundled Rat).Sound := soundB_sound _ (by decide +kernel)
+/-- the best lists of the shipped converter are not mixed across systems (decided) -/
+theorem C08_bundled_systems_coherent : (Converter.bundled Rat).SystemsCoherent := fc_systemsCoherentB (by decide +kernel)
+/-- every ratio of the shipped converter is positive (decided) -/
+theorem C08_bundled_pos_ratios : (Converter.bundled Rat).PosRatios := bu_posRatiosB (by decide +kernel)
+
+/-- **Scaling by 1 returns a fitted quantity unchanged — shipped converter, no side condition on signs, units or
+    fractions.**  If the quantity of a linear ingredient is the result `q` of a successful `fit` with the shipped
+    converter (any value kind, any sign, any unit, fractions enabled or not — e.g. it comes from a scaled recipe), then
+    `q` is a fixed point of `fit` (`C09_bundled_fit_idempotent`), and scaling by the factor 1 leaves exactly `q`
+    (numbers and unit text) whenever `linear_scale(q.value, 1)` is `q.value` again — i.e. `q` states plain numbers
+    (`linear_scale` rebuilds every number as `Regular(value · 1)`; a `Fraction` comes back as its value). -/
+theorem C08_bundled_scale_one_of_fitted (q0 q : SQuantity Rat)
+    (hfit : fit (Converter.bundled Rat) q0 = (q, .ok ()))
+    (i : Ingredient (ScalableValue Rat)) (hq : i.quantity = some ⟨.linear q.value, q.unit⟩) :
+    fit (Converter.bundled Rat) q = (q, .ok ()) ∧
+    (((ScalableValue.linear q.value).scale (1 : Rat)).1 = q.value →
+      (scaleIngredient (Converter.bundled Rat) 1 i).1.quantity = some q) := by
+  have hidem := fid_fit_idempotent_all C08_bundled_sound C08_bundled_systems_coherent C08_bundled_pos_ratios
+    (by decide +kernel) q0 q hfit
+  refine ⟨hidem, ?_⟩
+  intro hscale
+  simp only [scaleIngredient, hq, scaled_quantity_eq, hscale]
+  rw [hidem]
+
+/-- non-vacuity: `1500 ml` is fitted to `1.5 l`, which states a plain number, so scaling it by 1 leaves `1.5 l` -/
+example : fit (Converter.bundled Rat) ⟨.number (.regular 1500), some ['m','l']⟩ =
+    (⟨.number (.regular (3/2)), some ['l']⟩, .ok ()) ∧
+    ((ScalableValue.linear (Value.number (.regular (3/2 : Rat)))).scale (1 : Rat)).1 = .number (.regular (3/2)) := by
+  constructor
+  · have h1 : (fit (Converter.bundled Rat) ⟨.number (.regular 1500), some ['m','l']⟩).1 =
+        ⟨.number (.regular (3/2)), some ['l']⟩ := by decide +kernel
+    have h2 : (fit (Converter.bundled Rat) ⟨.number (.regular 1500), some ['m','l']⟩).2.toOption = some () := by
+      decide +kernel
+    cases hf : fit (Converter.bundled Rat) ⟨.number (.regular 1500), some ['m','l']⟩ with
+    | mk a e =>
+      rw [hf] at h1 h2
+      cases e with
+      | error x => cases h2
+      | ok u => simp only at h1; rw [h1]
+  · decide +kernel
 -- ===== end w6numeric =====
 
 end Cook
